@@ -1,1 +1,99 @@
-import M4riProofs.WordLemmas
+/-
+  C08 — Addition and data movement are exact. `…Into` = destination supplied (its excess bits and, for
+  copy, its entries outside the source area are preserved); `…New` = allocated by the call (zero padding).
+  Transposition: see `transpose_spec` below (R-level definition) — the word-level transposition kernels
+  of mzd.c are NOT modelled; they are tied to this specification by the correspondence run only.
+-/
+import M4riProofs.W.DataMove
+import M4riProofs.Bridge
+namespace M4ri.Props.C08
+open M4ri M4ri.Mzd
+
+theorem add_spec (C A B : Mzd) (h : C.WF) (hrA : A.nrows = C.nrows) (hrB : B.nrows = C.nrows)
+    (hcA : A.ncols = C.ncols) (i j : Nat) (hi : i < C.nrows) (hj : j < 64 * C.width) :
+    (addInto C A B).bit i j = if j < C.ncols then (A.bit i j != B.bit i j) else C.bit i j :=
+  addInto_bit C A B h hrA hrB hcA i j hi hj
+
+/-- destination is the first summand -/
+theorem add_alias_left (A B : Mzd) (h : A.WF) (hr : B.nrows = A.nrows) (i j : Nat) (hi : i < A.nrows)
+    (hj : j < 64 * A.width) :
+    (addInto A A B).bit i j = if j < A.ncols then (A.bit i j != B.bit i j) else A.bit i j :=
+  addInto_self_left A B h hr i j hi hj
+
+/-- destination is the second summand -/
+theorem add_alias_right (A B : Mzd) (h : B.WF) (hr : A.nrows = B.nrows) (hc : A.ncols = B.ncols) (i j : Nat)
+    (hi : i < B.nrows) (hj : j < 64 * B.width) :
+    (addInto B A B).bit i j = if j < B.ncols then (A.bit i j != B.bit i j) else B.bit i j :=
+  addInto_self_right A B h hr hc i j hi hj
+
+theorem add_new (A B : Mzd) (hr : B.nrows = A.nrows) (i j : Nat) (hi : i < A.nrows) (hj : j < 64 * A.width) :
+    (addInto (zero A.nrows A.ncols) A B).bit i j = if j < A.ncols then (A.bit i j != B.bit i j) else false :=
+  addInto_zero_bit A B hr i j hi hj
+
+theorem copy_spec (N P : Mzd) (h : N.WF) (i j : Nat) (hi : i < N.nrows) (hj : j < 64 * N.width) :
+    (copyInto N P).bit i j = if i < P.nrows ∧ j < P.ncols then P.bit i j else N.bit i j :=
+  copyInto_bit N P h i j hi hj
+
+theorem copy_new (P : Mzd) (i j : Nat) (hi : i < P.nrows) (hj : j < 64 * P.width) :
+    (copyNew P).bit i j = if j < P.ncols then P.bit i j else false := copyNew_bit P i j hi hj
+
+theorem copy_row_spec (B : Mzd) (i : Nat) (A : Mzd) (j : Nat) (h : B.WF) (hc : A.ncols ≤ B.ncols)
+    (hpos : 0 < A.ncols) (hi : i < B.nrows) (r c : Nat) (hr : r < B.nrows) (hcw : c < 64 * B.width) :
+    (copyRow B i A j).bit r c = if r = i ∧ c < A.ncols then A.bit j c else B.bit r c :=
+  copyRow_bit_of_pos B i A j h hc hpos hi r c hr hcw
+
+theorem set_ui_spec (A : Mzd) (v : Nat) (h : A.WF) (i j : Nat) (hi : i < A.nrows) (hj : j < 64 * A.width) :
+    (setUi A v).bit i j = if j < A.ncols then decide (v % 2 = 1 ∧ i = j) else A.bit i j :=
+  setUi_bit A v h i j hi hj
+
+theorem submatrix_spec (S M : Mzd) (lr lc hr hc : Nat) (h : S.WF) (hnr : S.nrows = hr - lr)
+    (hnc : S.ncols = hc - lc) (i j : Nat) (hi : i < S.nrows) (hj : j < 64 * S.width) :
+    (submatrixInto S M lr lc hr hc).bit i j = if j < S.ncols then M.bit (lr + i) (lc + j) else S.bit i j :=
+  submatrixInto_bit S M lr lc hr hc h hnr hnc i j hi hj
+
+theorem submatrix_new (M : Mzd) (lr lc hr hc : Nat) (i j : Nat) (hi : i < hr - lr)
+    (hj : j < 64 * widthOf (hc - lc)) :
+    (submatrixNew M lr lc hr hc).bit i j = if j < hc - lc then M.bit (lr + i) (lc + j) else false :=
+  submatrixNew_bit M lr lc hr hc i j hi hj
+
+theorem concat_spec (C A B : Mzd) (h : C.WF) (hrA : A.nrows = C.nrows) (hrB : B.nrows = C.nrows)
+    (hc : C.ncols = A.ncols + B.ncols) (i j : Nat) (hi : i < C.nrows) (hj : j < 64 * C.width) :
+    (concatInto C A B).bit i j =
+      if j < A.ncols then A.bit i j else if j < C.ncols then B.bit i (j - A.ncols) else C.bit i j :=
+  concatInto_bit C A B h hrA hrB hc i j hi hj
+
+theorem concat_new (A B : Mzd) (hr : B.nrows = A.nrows) (i j : Nat) (hi : i < A.nrows)
+    (hj : j < 64 * widthOf (A.ncols + B.ncols)) :
+    (concatNew A B).bit i j =
+      if j < A.ncols then A.bit i j else if j < A.ncols + B.ncols then B.bit i (j - A.ncols) else false :=
+  concatNew_bit A B hr i j hi hj
+
+theorem stack_spec (C A B : Mzd) (h : C.WF) (hr : C.nrows = A.nrows + B.nrows) (hcA : C.ncols = A.ncols)
+    (hcB : B.ncols = A.ncols) (i j : Nat) (hi : i < C.nrows) (hj : j < 64 * C.width) :
+    (stackInto C A B).bit i j =
+      if j < C.ncols then (if i < A.nrows then A.bit i j else B.bit (i - A.nrows) j) else C.bit i j :=
+  stackInto_bit C A B h hr hcA hcB i j hi hj
+
+theorem stack_new (A B : Mzd) (hc : B.ncols = A.ncols) (i j : Nat) (hi : i < A.nrows + B.nrows)
+    (hj : j < 64 * A.width) :
+    (stackNew A B).bit i j =
+      if j < A.ncols then (if i < A.nrows then A.bit i j else B.bit (i - A.nrows) j) else false :=
+  stackNew_bit A B hc i j hi hj
+
+theorem extract_u_spec (U A : Mzd) (h : U.WF) (hr : U.nrows = min A.nrows A.ncols)
+    (hc : U.ncols = min A.nrows A.ncols) (i j : Nat) (hi : i < U.nrows) (hj : j < 64 * U.width) :
+    (extractUInto U A).bit i j = if j < U.ncols then (decide (i ≤ j) && A.bit i j) else U.bit i j :=
+  extractUInto_bit U A h hr hc i j hi hj
+
+theorem extract_l_spec (L A : Mzd) (h : L.WF) (hr : L.nrows = min A.nrows A.ncols)
+    (hc : L.ncols = min A.nrows A.ncols) (i j : Nat) (hi : i < L.nrows) (hj : j < 64 * L.width) :
+    (extractLInto L A).bit i j = if j < L.ncols then (decide (j ≤ i) && A.bit i j) else L.bit i j :=
+  extractLInto_bit L A h hr hc i j hi hj
+
+/-- the transposition specification used as the model of `mzd_transpose`: entry-wise, and an involution -/
+theorem transpose_spec (B : BMat) (i j : Nat) (hi : i < B.ncols) (hj : j < B.nrows) :
+    (B.transpose).get i j = B.get j i := BMat.get_transpose B i j hi hj
+
+theorem transpose_involutive (B : BMat) (h : B.WF) : B.transpose.transpose = B := BMat.transpose_transpose h
+
+end M4ri.Props.C08
